@@ -2,3 +2,11 @@
 //! One constant per known-finding role: under Kani `true` means the role is assumed away in
 //! the property harness (so any *other* violation is still reported); natively always false.
 #![allow(dead_code)]
+#[cfg(kani)]
+pub const KF_C01_MT942_EARLY_13D_REORDERED: bool = true;
+#[cfg(not(kani))]
+pub const KF_C01_MT942_EARLY_13D_REORDERED: bool = false;
+#[cfg(kani)]
+pub const KF_C02_MT942_EARLY_13D_NOT_COVERED: bool = true;
+#[cfg(not(kani))]
+pub const KF_C02_MT942_EARLY_13D_NOT_COVERED: bool = false;
